@@ -23,7 +23,9 @@ META = {
                   "max_hits; (4) the assembled detect_on_trajectory (linear interpolation, 3 samples, symbolic values, three "
                   "directions): the number of hits equals the number of direction-compatible strict sign changes plus "
                   "accepted on-surface samples, each hit time lies in its bracketing interval, times are ordered; (5) the cubic "
-                  "refinement keeps every hit inside its bracketing interval (Newton iterate clamped).",
+                  "refinement keeps every hit inside its bracketing interval (Newton iterate clamped); (6) call sites: the "
+                  "engine hands every worker all detection settings, and over all request histories of length <= 3 the map "
+                  "service runs the detection with the plane and direction of the CURRENT request (None = both included).",
     "level_note": "Bounded in the number of samples (N = 4 for the index functions, 3 for the assembled detector) - the "
                   "functions are vectorised and only look at neighbours k-1..k+2 - and unbounded in the sample values. Not "
                   "decided: convergence orders of linear / cubic interpolation (interpolation theory T10). Boundary case "
